@@ -48,9 +48,9 @@ EMU = 914400
 FORMATS = ["png", "jpeg", "gif", "bmp", "tiff"]
 ENTRY = ["pic", "grp", "ph", "movie", "ole", "pic"]
 PIL_NAME = {"png": "PNG", "jpeg": "JPEG", "gif": "GIF", "bmp": "BMP", "tiff": "TIFF"}
-MAGIC = [(b"\x89PNG\r\n\x1a\n", "png"), (b"\xff\xd8", "jpeg"), (b"GIF8", "gif"), (b"BM", "bmp"), (b"II*\x00", "tiff"), (b"MM\x00*", "tiff")]
-EXTS = {"png": {"png"}, "jpeg": {"jpg", "jpeg"}, "gif": {"gif"}, "bmp": {"bmp"}, "tiff": {"tiff", "tif"}}
-CTYPE = {"png": "image/png", "jpeg": "image/jpeg", "gif": "image/gif", "bmp": "image/bmp", "tiff": "image/tiff"}
+MAGIC = [(b"\x89PNG\r\n\x1a\n", "png"), (b"\xff\xd8", "jpeg"), (b"GIF8", "gif"), (b"BM", "bmp"), (b"II*\x00", "tiff"), (b"MM\x00*", "tiff"), (b"\xd7\xcd\xc6\x9a", "wmf")]
+EXTS = {"png": {"png"}, "jpeg": {"jpg", "jpeg"}, "gif": {"gif"}, "bmp": {"bmp"}, "tiff": {"tiff", "tif"}, "emf": {"emf"}, "wmf": {"wmf"}}
+CTYPE = {"png": "image/png", "jpeg": "image/jpeg", "gif": "image/gif", "bmp": "image/bmp", "tiff": "image/tiff", "emf": "image/x-emf", "wmf": "image/x-wmf"}
 NS_A = "{http://schemas.openxmlformats.org/drawingml/2006/main}"
 NS_P = "{http://schemas.openxmlformats.org/presentationml/2006/main}"
 NS_R = "{http://schemas.openxmlformats.org/officeDocument/2006/relationships}"
@@ -148,6 +148,8 @@ def sniff(b):
     for magic, fmt in MAGIC:
         if b.startswith(magic):
             return fmt
+    if b[:4] == b"\x01\x00\x00\x00" and b[40:44] == b" EMF":  # an Enhanced Metafile: EMR_HEADER record, signature at offset 40
+        return "emf"
     return None
 
 
@@ -487,7 +489,20 @@ class Run:
             acc.hit("poster-frame")
         elif kind == "ole":
             prog = PROG_ID.XLSX if op.get("prog") == "xlsx" else "Verif.Object.1"
-            sh = slides[sidx].shapes.add_ole_object(io.BytesIO(b"embedded object bytes"), prog, pos[0], pos[1], icon_file=src)
+            if op.get("default_icon"):
+                # no icon given: python-pptx takes one of its own templates (an EMF); that image is a part like any other and must
+                # be named and typed after what it IS
+                tmpl = os.path.join(os.path.dirname(pptx.__file__), "templates", prog.icon_filename if isinstance(prog, PROG_ID) else "generic-icon.emf")
+                with open(tmpl, "rb") as fh:
+                    blob = fh.read()
+                if blob not in self.images:
+                    self.images.append(blob)
+                    self.facts.append(facts(blob))
+                i = self.images.index(blob)
+                sh = slides[sidx].shapes.add_ole_object(io.BytesIO(b"embedded object bytes"), prog, pos[0], pos[1])
+                acc.hit("ole-default-icon")
+            else:
+                sh = slides[sidx].shapes.add_ole_object(io.BytesIO(b"embedded object bytes"), prog, pos[0], pos[1], icon_file=src)
             acc.hit("ole-icon")
         if self.reopened:
             acc.hit("reopen-continue")
@@ -659,6 +674,7 @@ def gen_history(i):
             op["h"] = dim() if mode in ("h", "both") else None
         if kind == "ole":
             op["prog"] = rnd.choice(["xlsx", "str"])
+            op["default_icon"] = rnd.random() < 0.4
         return op
 
     if i % 10 == 7:
